@@ -11,14 +11,18 @@ MANIFEST = dict(
          "the unit of work writes them, that a successful flush leaves no history on any member and that a row changes only for an object with "
          "net history (set-back-to-original writes nothing). The binding reads inspect(obj).attrs[x].history of all four attributes of "
          "every object after EVERY step of every walk (loaded and new objects, members and non-members) and compares (added, unchanged, "
-         "deleted) with the spec's diff; after each flush the emitted INSERT/UPDATE/DELETE set with parameters must equal the spec's.",
+         "deleted) with the spec's diff; after each flush the emitted INSERT/UPDATE/DELETE set with parameters must equal the spec's and the FK rows are re-read. "
+         "The collection is bound as list, as set and as attribute_keyed_dict: the abstract state is the same, the M* actions name the Python "
+         "mutator (set: add/update/|=/remove/discard/-=/pop/clear; dict: setitem/setdefault/update/del/pop(k)/pop(k, default) present and "
+         "absent/popitem/clear), each also as the first mutation after load and after a flush.",
     design_ref="3.9, 4 (C36), Appendix I",
-    note="trusted: TLC; attribute kinds: list collection, many-to-one reference, integer scalar (set/dict collections, del obj.x, expired or "
-         "unloaded attributes not covered); None members of a history tuple are projected away (a never-flushed object reports its explicit "
+    note="trusted: TLC; attribute kinds: list / set / attribute_keyed_dict collection, many-to-one reference, integer scalar (del obj.x, "
+         "expired or unloaded attributes, set &=/^= and dict |= not covered); None members of a history tuple are projected away (a never-flushed object reports its explicit "
          "None as added)",
     technique="TLA+ spec (OrmGraph.tla) + TLC exhaustive model checking; spec->code replay of every state-graph edge comparing History tuples")
 MEM = ["Append", "Insert", "Remove", "Pop", "Replace", "SetParent"]
 ACTS = MEM + ["SetVal", "Add", "Expunge", "Flush", "CommitReload"]
+KACTS = ["MAdd", "MRem", "MPop", "MClear", "MNoop", "Replace", "SetParent", "Add", "Flush", "CommitReload"]
 INVS = ["TypeOK", "FlushClearsHistory", "BothSides"]
 PROPS = ["CommittedOnlyAtFlush", "NoHistoryNoWrite"]
 
@@ -50,6 +54,13 @@ def main(chk):
                         footprint=ACTS)]
         deep = [dict(name="deep-default-2x3", casc="default", consts=oc.consts("default", 3, 5, acts=ACTS), invs=INVS, props=PROPS),
                 dict(name="deep-default-2x2", casc="default", consts=oc.consts("default", 2, 7, acts=ACTS), invs=INVS, props=PROPS)]
+    # collection-kind dimension: the same parent/children model bound to a set (collection_class=set) and to an attribute_keyed_dict; the
+    # M* actions carry the Python mutator to call (add/update/|=, remove/discard/-=, pop, clear; d[k]=c/setdefault/update, del/pop(k)/
+    # pop(k, default) present and absent, popitem, clear), each reachable as FIRST mutation after load / after a flush and later in a walk
+    for kind in ("set", "dict"):
+        dk = 4 if q else 5
+        configs.append(dict(name="kind-" + kind, casc="default", consts=oc.consts("default", 2 if q else 3, dk, acts=KACTS, init="both", kind=kind),
+                            invs=INVS, props=PROPS, maxlen=dk, nrandom=nr, footprint=KACTS))
     st = oc.run_suite(chk, rng, configs, ACTS, deep=deep, nontrivial=nontrivial)
     return chk.finish(
         dict(states=st["states"] + st["deep_states"], transitions=st["transitions"] + st["deep_transitions"],
